@@ -65,6 +65,59 @@ def check_presence_sets(ctx, fn, where):
     ctx.require(checked >= 2, f"{where}: expected at least 2 collected presence sets (text keys, chk roots), found {checked}")
 
 
+def check_interesting_key_sets(ctx, fn, where):
+    """R1d (K8, pointwise set abstraction): the first half of _check_new_inventories is evaluated abstractly on one
+    revision per membership class — new revision with/without its inventory, new revision that is also the parent of
+    another new revision, old parent present / absent (ghost) — and the two id lists handed to
+    _build_interesting_key_sets must be: all = new inventories ∪ present parents; parents-only = present parents that
+    are not themselves new.  A new revision wrongly classed as 'parent only' has its chk pages and texts skipped."""
+    from ..absint import Interp, Obj, Opaque, Raised
+
+    class Stop(Exception):
+        pass
+
+    captured = {}
+    # revisions: n1 (new, inv present, parents n2,p1,g), n2 (new, inv present, parent p1), p1 (old, present), g (ghost)
+    new_keys = {("n1",), ("n2",)}
+    parents = {("n1",): (("n2",), ("p1",), ("g",)), ("n2",): (("p1",),), ("p1",): ()}
+
+    def hook(interp, call, name, ev_args, env):
+        if name == "key_deps.get_new_keys":
+            return set(new_keys)
+        if name == "no_fallback_inv_index.get_parent_map":
+            args, _ = ev_args()
+            return {k: parents[k] for k in list(args[0]) if k in parents}
+        if name == "_build_interesting_key_sets":
+            args, _ = ev_args()
+            captured["all"], captured["parents_only"] = set(args[1]), set(args[2])
+            raise Raised("STOP", (), call)
+        return NotImplemented
+
+    def attr_hook(o, attr):
+        return Opaque(attr)
+
+    it = Interp(call_hook=hook, attr_hook=attr_hook, name_hook=lambda n: Opaque(n) if n in ("chk_map", "errors") else NotImplemented)
+    me = Obj("collection")
+    me.set("repo", Obj("repo"))
+    try:
+        it.call(fn, {"self": me})
+    except Raised as r:
+        if r.name != "STOP":
+            ctx.require(False, f"{where}: abstract evaluation raised {r.name}")
+    ctx.require("all" in captured, f"{where}: _build_interesting_key_sets(...) was not reached with all inventories present")
+    ctx.check("R1-interesting-key-sets", where, captured["all"] == {"n1", "n2", "p1"}, "inventories examined = new inventories ∪ present parent inventories (ghost parents dropped)", construct=str(sorted(captured["all"])), message=f"the set of inventories whose chk roots are examined is {sorted(captured['all'])}, expected ['n1', 'n2', 'p1']")
+    ctx.check("R1-interesting-key-sets", where, captured["parents_only"] == {"p1"}, "'parent only' inventories = present parents that are not new revisions themselves", construct=str(sorted(captured["parents_only"])), message=f"'parent only' inventories are {sorted(captured['parents_only'])}, expected ['p1']: a new revision that is also the parent of another new revision would have its chk pages and texts left unchecked")
+    # a new revision without inventory is reported and nothing else is examined
+    new_keys.add(("n3",))
+    captured.clear()
+    res = None
+    try:
+        res = it.call(fn, {"self": me})
+    except Raised as r:
+        res = "raised:" + r.name
+    ctx.check("R1-interesting-key-sets", where, isinstance(res, list) and len(res) == 1 and "all" not in captured, "a new revision without its inventory is reported as a problem straight away", construct=str(res)[:80])
+
+
 def run(ctx):
     repo = ctx.repo
     # ---- R1 ------------------------------------------------------------------
@@ -94,6 +147,7 @@ def run(ctx):
 
     if r is not None and r[0] == GC:
         check_presence_sets(ctx, r[2], f"{GC}:GCRepositoryPackCollection._check_new_inventories")
+        check_interesting_key_sets(ctx, r[2], f"{GC}:GCRepositoryPackCollection._check_new_inventories")
 
     # ---- R2 ------------------------------------------------------------------
     fn, g, where = fn_cfg(ctx, PR, f"{COLL}._abort_write_group", fallible=lambda s: any(call_attr(c) == "abort" for c in calls_in(s)))
